@@ -73,6 +73,15 @@ Proof.
 Qed.
 Print Assumptions C11_initiator_ike.
 
+(** pinned: the IKE-side check does not demand every type; an incomplete response is not adopted either - it fails
+    in key generation with StopIteration (the IKE_SA is dropped, nothing installed) *)
+Theorem C11_initiator_ike_incomplete : forall mine sa,
+  initiator_ike mine sa = Raise StopIteration <->
+  exists resp rest, sa = resp :: rest /\ is_subset resp mine = true /\
+    (get_transforms resp TYPE_PRF = [] \/ get_transforms resp TYPE_INTEG = [] \/ get_transforms resp TYPE_ENCR = []).
+Proof. exact initiator_ike_incomplete. Qed.
+Print Assumptions C11_initiator_ike_incomplete.
+
 (** initiator, CHILD_SA: an accepted response proposal is (as a set) the intersection of my offer with it: only my
     transforms, at most one per type, and every type I require *)
 Theorem C11_initiator_child : forall ike_auth offer sa chosen,
